@@ -19,6 +19,7 @@ from pyvc.loader import _STOP
 from pyvc.stubs import Opaque, NullLogger, Clock, StubLoop
 from kopf._core.engines import daemons
 from kopf._core.intents import handlers, stoppers
+from kopf._cogs.structs import patches
 
 SR = stoppers.DaemonStoppingReason
 STAGE_FLAGS = (SR.DAEMON_SIGNALLED, SR.DAEMON_CANCELLED, SR.DAEMON_ABANDONED)
@@ -622,8 +623,8 @@ class TracedMemory:
 
 
 @harness('D1', targets=['kopf._core.engines.daemons.spawn_daemons', 'kopf._core.engines.daemons._runner'], props=['C09', 'C10', 'C13', 'C06', 'C20', 'C08', 'C15'],
-         prop_clauses={'C08': ['runner_wired', 'live_body_kept_while_shared'], 'C15': ['spawn_only_absent', 'runner_wired', 'frame']},
-         clauses=['spawn_only_absent', 'atomic_register', 'runner_wired', 'frame',
+         prop_clauses={'C08': ['runner_wired', 'live_body_kept_while_shared', 'own_patch_per_daemon'], 'C15': ['spawn_only_absent', 'runner_wired', 'frame']},
+         clauses=['spawn_only_absent', 'atomic_register', 'runner_wired', 'frame', 'own_patch_per_daemon',
                   'wraps_by_kind', 'forever_stopped_iff_self_exit', 'removal_last', 'done_flag', 'propagates',
                   'live_body_kept_while_shared'],
          canaries=['canary.always_spawns', 'canary.never_forever_stopped'],
@@ -647,6 +648,14 @@ def D1(vc):
       runner_wired       the stored record holds the created task, the handler and the very stopper given to the
                          runner's cause (a fresh, unset one); the runner gets the same dict (for self-removal),
                          the handler and the memory.
+      own_patch_per_daemon  (spawn_daemons run natively for TWO or THREE absent handlers of one object, spawned in one cycle)
+                         what is handed out per daemon is the daemon's own: every runner's cause carries its OWN patch
+                         object (empty when handed over, relative to the live body) and its own stopper -- never an object
+                         shared with a sibling or the one-shot patch of the spawning cycle: each runner delivers its patch
+                         and swaps in a fresh one for itself only; a shared initial patch is never cleared, so whatever the
+                         first handler to finish put into it is re-sent, stale, with every sibling's first delivery, and a
+                         sibling's delivery ships another handler's half-written fields (C08: exactly once, atomically;
+                         seeded C08-10 hoisted the Patch construction out of the loop).
     _runner:
       wraps_by_kind      daemons run in _daemon, timers in _timer, exactly once, with the handler and cause given;
       forever_stopped_iff_self_exit  handler.id is added to memory.forever_stopped iff no stop reason was ever
@@ -664,9 +673,52 @@ def D1(vc):
                          installs a body of its own -- at most it drops the reference.  (Whether it is dropped when
                          nobody else is registered is a memory optimisation and is not constrained.)
     """
-    if vc.nondet(2, 'spawn_daemons | _runner') == 0:
+    k = vc.nondet(3, 'spawn_daemons | _runner | spawn_daemons for several handlers')
+    if k == 0:
         return _d1_spawn(vc)
+    if k == 2:
+        return _d1_spawn_several(vc)
     return _d1_runner(vc)
+
+
+def _d1_spawn_several(vc):
+    clock = Clock()
+    settings = Opaque('settings')
+    body = Opaque('live-body')
+    spawning_patch = patches.Patch()
+    cause = Opaque('spawning-cause', resource=Opaque('resource'), indices=Opaque('indices'), logger=NullLogger(),
+                   memo=Opaque('memo'), body=Opaque('cause-body'), patch=spawning_patch)
+    n = 2 + vc.nondet(2, 'two or three absent handlers')
+    hs = [mk_handler(vc, f'd{i}', sym=False) for i in range(n)]
+    running = {}
+    memory = TracedMemory(vc, live_fresh_body=body, forever_stopped=set(), running_daemons=running, idle_reset_time=clock.now)
+    jobs = []
+
+    def runner(**kw):
+        jobs.append(kw)
+        return Ghost(kw=kw)
+
+    def create_task(coro, *, name=None, **kw):
+        return SymTask(vc, clock, 'new-task', done=False)
+
+    async def sleep(*a, **kw):
+        await suspend('asyncio.sleep')
+
+    ld = vc.load('kopf._core.engines.daemons', 'spawn_daemons', stubs={
+        '_runner': runner, 'asyncio.create_task': create_task, 'asyncio.sleep': sleep,
+        'loggers.LocalObjectLogger': lambda **kw: NullLogger(),
+    })
+    vc.drive(ld.fn(settings=settings, handlers=hs, daemons=running, cause=cause, memory=memory), lambda site: None)
+    vc.ensure('own_patch_per_daemon', len(jobs) == n and [kw.get('handler') for kw in jobs] == hs)
+    ps = [kw['cause'].patch for kw in jobs]
+    sts = [kw['cause'].stopper for kw in jobs]
+    for i in range(len(jobs)):
+        vc.ensure('own_patch_per_daemon', isinstance(ps[i], patches.Patch) and ps[i] is not spawning_patch
+                  and not any(ps[i] is ps[j] for j in range(i)))
+        vc.ensure('own_patch_per_daemon', not ps[i] and len(ps[i]) == 0 and not ps[i].fns)
+        vc.ensure('own_patch_per_daemon', sts[i] is not None and not any(sts[i] is sts[j] for j in range(i)))
+        vc.ensure('own_patch_per_daemon', jobs[i]['cause'].body is body)
+    return ('spawn-several', n, len(jobs))
 
 
 def _d1_spawn(vc):
